@@ -271,6 +271,8 @@ def b_gradients(ctx):
             mesh[['x', 'y', 'z']] = mesh[['x', 'y', 'z']] * scale
             df = mesh.copy()
             df['f'] = df[['x', 'y', 'z']].to_numpy() @ g + c
+            if scale == 1.0 and nn == 'gapped':
+                df = df[['f', 'z', 'y', 'x']].assign(note=1.0)      # the mesh frame is identified by its column names: another column order, a further column
             for op in ('gradient_3D', 'gradient'):
                 if op == 'gradient' and tets and size != (2, 1, 1):
                     continue
